@@ -17,9 +17,11 @@ Ltac step_cases H :=
 Ltac simp_st :=
   cbn [main rn stop_called errq sigq own_cancel parent_cancel sd sd_timed_out sd_trig rm rls sls
        sdm_done stm_done mon mq cur smap hup callers subs passes aux hist rtrig strig sub_ok polling finals
+       run_entered sd_all su_fired
        set_main set_rn set_errq set_sigq set_sd set_stop_called set_cancel set_sd_trig set_rm
        set_listeners set_mon set_cur set_smap set_hup set_callers set_aux set_rtrig set_strig
-       set_sub_ok set_polling set_finals restore_finals with_hist] in *.
+       set_sub_ok set_polling set_finals set_run_entered set_sd_all set_su_fired start_managers
+       restore_finals with_hist] in *.
 
 Lemma step_hist c s l s' :
   step c s l = Some s' ->
